@@ -28,7 +28,7 @@ import (
 )
 
 var st = stat.New("C08",
-	"Case = {1..3 proxies (connections) to one scripted server, 1..48 calls issued by 1..48 worker goroutines (a worker issues its calls sequentially, workers run concurrently) each call with a unique payload token and a context deadline of 250 or 400 ms, the process-wide request id counter preset (random, near MaxInt32, near 0 from below), per caller a reply plan: 0..3 acts from {own reply, duplicate, reply with the id of another caller, id 0, unknown id, own id marked one-way} with delays 0..40 ms or late (after the deadline), or silence}. Oracle (history invariant over the server log): a caller returns either an error or a response whose serial was sent with id field == the id of its own request and packet type normal; request ids on the wire are never 0 and pairwise distinct within the batch; a caller for whom a correctly addressed reply was written on its connection at least 150 ms before its deadline must succeed. Non-trivial = >=4 calls in flight and >=1 duplicate or foreign-id reply and replies not in request order. Distinct = distinct case JSON.",
+	"Case = {1..3 proxy objects to one scripted server - either for distinct servant names (separate connections) or all for the same name (as repeated StringToProxy calls: one shared adapter and connection), 1..48 calls issued by 1..48 worker goroutines (a worker issues its calls sequentially, workers run concurrently) each call with a unique payload token and a context deadline of 250 or 400 ms, the process-wide request id counter preset (random, near MaxInt32, near 0 from below), per caller a reply plan: 0..3 acts from {own reply, duplicate, reply with the id of another caller, id 0, unknown id, own id marked one-way} with delays 0..40 ms or late (after the deadline), or silence}. Oracle (history invariant over the server log): a caller returns either an error or a response whose serial was sent with id field == the id of its own request and packet type normal; request ids on the wire are never 0 and pairwise distinct within the batch; a caller for whom a correctly addressed reply was written on its connection at least 150 ms before its deadline must succeed. Non-trivial = >=4 calls in flight and >=1 duplicate or foreign-id reply and replies not in request order. Distinct = distinct case JSON.",
 	"the scripted server's log is the ground truth; replies may legitimately carry foreign payloads, so payloads are never compared",
 	"schedules are sampled through generated delays, not enumerated; id uniqueness across a full 2^31 wrap is out of reach")
 
@@ -50,13 +50,17 @@ type Caller struct {
 }
 
 type Case struct {
-	NProxies int      `json:"n_proxies"`
-	IDBase   int32    `json:"id_base"`
-	Callers  []Caller `json:"callers"`
+	// SharedName: all proxy objects are created for the SAME servant name (as repeated
+	// StringToProxy calls do), so they share one endpoint manager, adapter and connection
+	SharedName bool     `json:"shared_name,omitempty"`
+	NProxies   int      `json:"n_proxies"`
+	IDBase     int32    `json:"id_base"`
+	Callers    []Caller `json:"callers"`
 }
 
 func draw(rt *rapid.T) Case {
 	c := Case{NProxies: rapid.IntRange(1, 3).Draw(rt, "nproxies")}
+	c.SharedName = c.NProxies > 1 && rapid.Bool().Draw(rt, "sharedName")
 	c.IDBase = rapid.OneOf(rapid.Int32(), rapid.Int32Range(math.MaxInt32-60, math.MaxInt32), rapid.Int32Range(-60, 2), rapid.Int32Range(math.MinInt32, math.MinInt32+60)).Draw(rt, "idBase")
 	n := rapid.OneOf(rapid.IntRange(1, 8), rapid.IntRange(4, 48)).Draw(rt, "ncallers")
 	// workers: some issue a single call, some a sequence of calls on the same proxy
@@ -120,7 +124,7 @@ type result struct {
 func run(c Case) *stat.Failure {
 	srv.ResetLog()
 	var mu sync.Mutex
-	idOf := map[int]int32{}  // caller -> request id
+	idOf := map[int]int32{} // caller -> request id
 	connOf := map[int]int{} // caller -> server connection
 	srv.Handler = func(s *peer.Server, r *peer.Req) {
 		if len(r.Buffer) < 4 {
@@ -162,11 +166,15 @@ func run(c Case) *stat.Failure {
 		}()
 	}
 	proxies := make([]*tars.ServantProxy, c.NProxies)
+	shared := fmt.Sprintf("Verif.C08.Obj%d@tcp -h 127.0.0.1 -p %d -t 60000", atomic.AddInt64(&objSeq, 1), srv.Port)
 	for i := range proxies {
-		obj := fmt.Sprintf("Verif.C08.Obj%d@tcp -h 127.0.0.1 -p %d -t 60000", atomic.AddInt64(&objSeq, 1), srv.Port)
+		obj := shared
+		if !c.SharedName {
+			obj = fmt.Sprintf("Verif.C08.Obj%d@tcp -h 127.0.0.1 -p %d -t 60000", atomic.AddInt64(&objSeq, 1), srv.Port)
+		}
 		proxies[i] = tars.NewServantProxy(comm, obj)
 	}
-	tars.VerifSetMsgID(c.IDBase)
+	presetMsgID(c.IDBase)
 	results := make([]result, len(c.Callers))
 	var wg sync.WaitGroup
 	maxLate := 0
@@ -287,6 +295,12 @@ func TestC08(t *testing.T) {
 	setup(t)
 	stat.Check(t, st, "delivery", stat.N(45, 6000), draw, func(c Case) *stat.Failure {
 		cls := []string{fmt.Sprintf("proxies-%d", c.NProxies)}
+		if c.SharedName {
+			cls = append(cls, "proxies-share-one-servant-name")
+		}
+		if !msgIDPreset {
+			cls = append(cls, "built-without-msgid-accessor")
+		}
 		kinds := map[string]bool{}
 		for _, cl := range c.Callers {
 			if len(cl.Acts) == 0 {
